@@ -382,17 +382,21 @@ def new : BC := { map := [], keys := [], total := 0 }
 /-- `correct_total_weight`: clamp a negative running total to 0. -/
 def clamp (x : Rat) : Rat := if x < 0 then 0 else x
 
+/-- `self.map.resize(entry_index + 1, None)` when the key is beyond the address table. -/
+def grow (m : List (Option Nat)) (k : Nat) : List (Option Nat) :=
+  if k ≥ m.length then m ++ List.replicate (k + 1 - m.length) none else m
+
 /-- `BondContainer::insert` -/
 def insert (b : BC) (k : Nat) (w : Rat) : BC :=
-  let map := if k ≥ b.map.length then b.map ++ List.replicate (k + 1 - b.map.length) none else b.map
-  match map[k]? with
+  match (grow b.map k)[k]? with
   | some (some idx) =>
     match b.keys[idx]? with
     | some (key, old) =>
-      { map := map, keys := b.keys.set idx (key, w), total := clamp (b.total + (w - old)) }
-    | none => b   -- Rust: index out of bounds panic (excluded by the invariant)
+      { map := grow b.map k, keys := b.keys.set idx (key, w), total := clamp (b.total + (w - old)) }
+    | none => b   -- Rust: index out of bounds panic (excluded by the container invariant)
   | _ =>
-    { map := map.set k (some b.keys.length), keys := b.keys ++ [(k, w)], total := b.total + w }
+    { map := (grow b.map k).set k (some b.keys.length), keys := b.keys ++ [(k, w)],
+      total := b.total + w }
 
 /-- `BondContainer::remove_index`: swap with the last key, fix its address, pop, clear the
 address of the removed key, subtract the weight. -/
@@ -423,6 +427,18 @@ def contains (b : BC) (k : Nat) : Bool :=
   | _ => false
 
 def len (b : BC) : Nat := b.keys.length
+
+/-- The mutating part of the public interface. -/
+inductive Op where
+  | insert (k : Nat) (w : Rat)
+  | remove (k : Nat)
+  | clear
+  deriving Repr, DecidableEq
+
+def step (b : BC) : Op → BC
+  | .insert k w => b.insert k w
+  | .remove k => b.remove k
+  | .clear => b.clear
 
 /-- The part of the container invariant that `clear` relies on: every occupied address
 belongs to a stored key. -/
